@@ -130,7 +130,7 @@ class FunctionVerifier:
         self.lib.type_assumptions(ex, p)
         return fi, c, p
 
-    def verify(self, fq, receiver=None):
+    def verify(self, fq, receiver=None, split=None):
         """symbolically execute the function and emit obligations"""
         ex = self.ex
         fi, c, p = self.setup(fq, receiver)
@@ -139,6 +139,13 @@ class FunctionVerifier:
         ctx0 = ex.ctx(p)
         for cl in c.requires:
             p.add(ex.spec.bool(cl.ast, ctx0))
+        if split is not None:
+            alts = [ex.spec.bool(ast.parse(a, mode='eval').body, ctx0) for a in c.split]
+            if split == 0:
+                # the alternatives cover the precondition
+                ex.oblige(p, z3.Or(alts), f'{fq.split(".", 1)[1]}/split-exhaustive', c.props, 'lemma', fi.node.lineno)
+            p.add(alts[split])
+            p.trail.append(('split', 0, split))
         for src in c.reveal:
             ex.spec.ev(ast.parse(f'reveal({src})', mode='eval').body, ctx0)
         fshort0 = fq.split('.', 1)[1]
@@ -169,8 +176,8 @@ class FunctionVerifier:
                 env = dict(entry.env)
                 env['result'] = v
                 ctx = ex.ctx(o.p, env)
-                for cl in c.ensures:
-                    goal = ex.spec.bool(cl.ast, ctx)
+                goals = [(cl, ex.spec.bool(cl.ast, ctx)) for cl in c.ensures]
+                for cl, goal in goals:
                     ex.oblige(o.p, goal, f'{fshort}/{cl.name}', cl.props, 'ensures', fi.node.lineno)
                 self.lib.frame_obligations(ex, o.p, c, fshort, exceptional=False)
             elif o.kind == 'raise':
